@@ -36,6 +36,12 @@ type Environment struct {
 	mu     sync.RWMutex
 	vars   map[string]binding
 	parent *Environment
+
+	// depth counts nested expression evaluations (atomically) for the recursion
+	// limit. A scope shares its parent's counter; the scope a request, command,
+	// task or handler starts in (newEvaluationRoot) gets its own, so concurrent
+	// requests do not use up each other's budget.
+	depth *int64
 }
 
 // NewEnvironment creates a new environment
@@ -43,15 +49,31 @@ func NewEnvironment() *Environment {
 	return &Environment{
 		vars:   make(map[string]binding),
 		parent: nil,
+		depth:  new(int64),
 	}
 }
 
 // NewChildEnvironment creates a child environment with a parent scope
 func NewChildEnvironment(parent *Environment) *Environment {
-	return &Environment{
+	child := &Environment{
 		vars:   make(map[string]binding),
 		parent: parent,
 	}
+	if parent == nil || parent.depth == nil {
+		child.depth = new(int64)
+	} else {
+		child.depth = parent.depth
+	}
+	return child
+}
+
+// newEvaluationRoot creates the scope an independent evaluation (one request,
+// command, task, handler invocation) starts in: a child of parent with its own
+// recursion-depth counter.
+func newEvaluationRoot(parent *Environment) *Environment {
+	child := NewChildEnvironment(parent)
+	child.depth = new(int64)
+	return child
 }
 
 // Define adds a new variable to the current environment as a user-declared
